@@ -332,3 +332,46 @@ func boxString(m map[string][]float64) string {
 	}
 	return strings.Join(ss, ",")
 }
+
+// UsedFingerprint: as PageFingerprint, but of the resources only those the page's content actually uses
+// (operands of Tf, Do, gs): an optimising writer may prune names nothing refers to, it may not lose a used one.
+func UsedFingerprint(ctx *model.Context, p Page) string {
+	content := NormContent(p)
+	used := map[string][]string{}
+	toks := strings.Fields(content)
+	for i, t := range toks {
+		if i == 0 || !strings.HasPrefix(toks[i-1], "/") && !(i >= 2 && strings.HasPrefix(toks[i-2], "/")) {
+			continue
+		}
+		switch t {
+		case "Do":
+			used["XObject"] = append(used["XObject"], toks[i-1][1:])
+		case "gs":
+			used["ExtGState"] = append(used["ExtGState"], toks[i-1][1:])
+		case "Tf":
+			if i >= 2 {
+				used["Font"] = append(used["Font"], toks[i-2][1:])
+			}
+		}
+	}
+	var parts []string
+	for _, cat := range []string{"ExtGState", "Font", "XObject"} {
+		names := used[cat]
+		sort.Strings(names)
+		for _, raw := range names {
+			name, _ := types.DecodeName(raw)
+			val := "MISSING"
+			if p.Resources != nil {
+				if sub, ok := p.Resources.Find(cat); ok {
+					if sd, err := ctx.DereferenceDict(sub); err == nil && sd != nil {
+						if o, ok := sd[name]; ok {
+							val = Canon(ctx, o, nil)
+						}
+					}
+				}
+			}
+			parts = append(parts, cat+"/"+name+"="+val)
+		}
+	}
+	return fmt.Sprintf("content=%s|mb=%v|cb=%v|boxes=%v|rot=%d|used=%s", content, p.MediaBox, p.CropBox, boxString(p.Boxes), p.Rotate, strings.Join(parts, ";"))
+}
